@@ -76,6 +76,8 @@ class T:
             f = s.value.func
             if isinstance(f, ast.Name) and f.id in self.loggers:
                 return True
+            if isinstance(f, ast.Name) and f.id in self.funcs and self.helper_only_logs(self.funcs[f.id], 0):
+                return True
             if isinstance(f, ast.Attribute) and ast.unparse(f) == '%s.msg' % self.sysname:
                 return True
             return False
@@ -90,6 +92,36 @@ class T:
             return True
         return False
 
+    def helper_only_logs(self, fn, depth):
+        """a module-level function all of whose statements log (msg() on one of its parameters, local printers, loops of those,
+        calls of other such helpers): calling it has no effect on the exit status"""
+        if depth > 2 or fn.decorator_list:
+            return False
+        params = {a.arg for a in fn.args.args}
+        local_loggers = set()
+        def ok(st):
+            if isinstance(st, ast.Pass) or (isinstance(st, ast.Expr) and isinstance(st.value, ast.Constant)):
+                return True
+            if isinstance(st, ast.FunctionDef):
+                if all(ok(x) for x in st.body):
+                    local_loggers.add(st.name)
+                    return True
+                return False
+            if isinstance(st, ast.For):
+                return not st.orelse and all(ok(x) for x in st.body)
+            if isinstance(st, ast.If):
+                return all(ok(x) for x in st.body + st.orelse)
+            if isinstance(st, ast.Expr) and isinstance(st.value, ast.Call):
+                f = st.value.func
+                if isinstance(f, ast.Attribute) and f.attr == 'msg' and isinstance(f.value, ast.Name) and f.value.id in params:
+                    return True
+                if isinstance(f, ast.Name) and f.id in local_loggers:
+                    return True
+                if isinstance(f, ast.Name) and f.id in self.funcs and self.funcs[f.id] is not fn:
+                    return self.helper_only_logs(self.funcs[f.id], depth + 1)
+            return False
+        return all(ok(x) for x in fn.body)
+
     # ---- statements; `ret` = local receiving `return e` when translating an inlined helper
     def block(self, stmts, ret=None):
         out = []
@@ -103,6 +135,14 @@ class T:
                 if any(not self.only_logs(x) for x in stmts[i + 1:]):
                     bad('statements after return', s)
                 break
+            if (isinstance(s, ast.For) and not s.orelse and isinstance(s.target, ast.Name) and len(s.body) == 1
+                    and ast.unparse(s.iter) == '%s.parse_errors.values()' % self.sysname and isinstance(s.body[0], ast.If)
+                    and isinstance(s.body[0].test, ast.Name) and s.body[0].test.id == s.target.id and not s.body[0].orelse
+                    and self.always_returns(s.body[0].body)):
+                # for v in system.parse_errors.values(): if v: ...; return E      ==   if any(system.parse_errors.values()): ...; return E
+                s = ast.copy_location(ast.If(test=ast.parse('any(%s.parse_errors.values())' % self.sysname, mode='eval').body,
+                                             body=s.body[0].body, orelse=[]), s)
+                ast.fix_missing_locations(s)
             if isinstance(s, ast.If):
                 c = self.expr(s.test)
                 if ret is not None and self.always_returns(s.body) and not s.orelse:
@@ -151,6 +191,9 @@ class T:
                 sub.sysname = n
             elif isinstance(a, ast.Name) and a.id == self.optname:
                 sub.optname = n
+            elif self.prim(a) or (isinstance(a, ast.Name) and a.id in self.aliases):
+                # a primitive handed over by value (e.g. options.warnings_as_errors): the parameter names it
+                sub.aliases[n] = self.prim(a) or self.aliases[a.id]
             else:
                 bad('helper argument', call)
         self.var(target)
